@@ -2,8 +2,8 @@
 Proofs/Mapper: the memory-mapped views over a file `pre ++ ser x ++ post`.
 (a) each constructor accepts the serialization at `offset = pre.length`, exposes exactly the payload,
     and `offset + mapLen` is the offset of the next structure;
-(b) each constructor refuses offsets at or past the end of the file (with the F11 exception for
-    `View.int`, which evaluates `offset + 1` first);
+(b) each constructor refuses offsets at or past the end of the file (`View.int`, repaired, included;
+    the F11 theorems are about the as-first-coded `View.intOld`, which evaluates `offset + 1` first);
 (c) each constructor refuses a file that is cut short.
 -/
 import Sds.Model.Mapper
@@ -165,7 +165,8 @@ theorem int_ok (m : Mode) (file : Array Word) (pre body post : List Word) (len w
       (by rw [hf]; simp) hrlen hb hsz
     simpa using this
   unfold View.int
-  rw [addM_ok (by omega)]
+  have h0 : ¬ (pre.length ≥ file.size) := by omega
+  rw [if_neg h0, addM_ok (by omega)]
   simp only [bind_ok]
   have h1 : ¬ (pre.length + 1 ≥ file.size) := by omega
   rw [if_neg h1, hat]
@@ -214,24 +215,48 @@ theorem option_refuses (m : Mode) (inner : Array Word → Nat → Outcome View) 
     (offset : Nat) (h : offset ≥ file.size) : View.option m inner file offset = fault (.err .eof) := by
   unfold View.option; rw [if_pos h]
 
-/-- `View.int` refuses as soon as `offset + 1` is not inside the file, PROVIDED `offset + 1` does not
-overflow -/
-theorem int_refuses (m : Mode) (file : Array Word) (offset : Nat) (ho : offset + 1 < U64)
-    (h : offset + 1 ≥ file.size) : View.int m file offset = fault (.err .eof) := by
+/-- `View.int` (repaired) refuses as soon as `offset` or `offset + 1` is not inside the file — every
+offset, every mode, no overflow proviso -/
+theorem int_refuses (m : Mode) (file : Array Word) (offset : Nat) (hsz : file.size < U64)
+    (h : offset ≥ file.size ∨ offset + 1 ≥ file.size) : View.int m file offset = fault (.err .eof) := by
   unfold View.int
+  by_cases h0 : offset ≥ file.size
+  · rw [if_pos h0]
+  · rw [if_neg h0, addM_ok (by omega)]
+    simp only [bind_ok]
+    rw [if_pos (by omega)]
+
+theorem int_refuses_past_end (m : Mode) (file : Array Word) (offset : Nat)
+    (h : offset ≥ file.size) : View.int m file offset = fault (.err .eof) := by
+  unfold View.int; rw [if_pos h]
+
+/-- the positive counterpart of F11: the repaired constructor returns the error at the last offset,
+whatever the file and the build mode -/
+theorem int_last_offset (m : Mode) (file : Array Word) (h : file.size < U64) :
+    View.int m file (2 ^ 64 - 1) = fault (.err .eof) :=
+  int_refuses_past_end m file _ (by rw [U64_eq] at h; omega)
+
+/-- the as-first-coded constructor agrees with the repaired one whenever `offset + 1` does not overflow
+and `offset` is inside the file -/
+theorem intOld_eq_int (m : Mode) (file : Array Word) (offset : Nat) (h : offset < file.size) :
+    View.intOld m file offset = View.int m file offset := by
+  unfold View.int View.intOld
+  rw [if_neg (by omega)]
+
+/-- `View.intOld` refuses as soon as `offset + 1` is not inside the file, PROVIDED `offset + 1` does not
+overflow -/
+theorem intOld_refuses (m : Mode) (file : Array Word) (offset : Nat) (ho : offset + 1 < U64)
+    (h : offset + 1 ≥ file.size) : View.intOld m file offset = fault (.err .eof) := by
+  unfold View.intOld
   rw [addM_ok ho]
   simp only [bind_ok]
   rw [if_pos h]
 
-theorem int_refuses_past_end (m : Mode) (file : Array Word) (offset : Nat) (ho : offset + 1 < U64)
-    (h : offset ≥ file.size) : View.int m file offset = fault (.err .eof) :=
-  int_refuses m file offset ho (by omega)
-
-/-- F11: at the last offset the as-coded `IntVectorMapper::new` panics (checked build) instead of
+/-- F11: at the last offset the as-first-coded `IntVectorMapper::new` panics (checked build) instead of
 returning an error, whatever the file -/
 theorem int_F11_checked (file : Array Word) :
-    View.int .checked file (2 ^ 64 - 1) = fault (.panic .overflow) := by
-  unfold View.int
+    View.intOld .checked file (2 ^ 64 - 1) = fault (.panic .overflow) := by
+  unfold View.intOld
   have : addM .checked (2 ^ 64 - 1) 1 = fault (.panic .overflow) := by decide
   rw [this]; rfl
 
@@ -239,8 +264,8 @@ theorem int_F11_wrapping_addM : addM .wrapping (2 ^ 64 - 1) 1 = ok 0 := by decid
 
 /-- F11, release build: `offset + 1` wraps to 0; an empty file is refused … -/
 theorem int_F11_wrapping_empty (file : Array Word) (h : file.size = 0) :
-    View.int .wrapping file (2 ^ 64 - 1) = fault (.err .eof) := by
-  unfold View.int
+    View.intOld .wrapping file (2 ^ 64 - 1) = fault (.err .eof) := by
+  unfold View.intOld
   rw [int_F11_wrapping_addM]
   simp only [bind_ok]
   rw [if_pos (by omega)]
@@ -248,8 +273,8 @@ theorem int_F11_wrapping_empty (file : Array Word) (h : file.size = 0) :
 /-- … and for every non-empty file the range test `0 ≥ file.size` passes and the constructor indexes
 the file at `2^64 - 1`: an index panic whenever that is out of range -/
 theorem int_F11_wrapping_nonempty (file : Array Word) (h0 : 0 < file.size) (h : file.size < U64) :
-    View.int .wrapping file (2 ^ 64 - 1) = fault (.panic .index) := by
-  unfold View.int
+    View.intOld .wrapping file (2 ^ 64 - 1) = fault (.panic .index) := by
+  unfold View.intOld
   rw [int_F11_wrapping_addM]
   simp only [bind_ok]
   rw [if_neg (by omega), fileAt_oob (by rw [U64_eq] at h; omega)]
@@ -310,18 +335,19 @@ theorem raw_trunc (m : Mode) (file : Array Word) (pre rest : List Word)
     rw [hsl]
     rfl
 
-/-- what can remain of an `IntVector` header-and-body when at least the first element is present -/
+/-- what can remain of an `IntVector` header-and-body when the file is cut inside it -/
 def TruncInt (base : Nat) (rest : List Word) : Prop :=
-  (∃ len, rest = [BitVec.ofNat 64 len] ∧ len < U64) ∨
+  rest = [] ∨ (∃ len, rest = [BitVec.ofNat 64 len] ∧ len < U64) ∨
   ∃ len w r, rest = BitVec.ofNat 64 len :: BitVec.ofNat 64 w :: r ∧ len < U64 ∧ w < U64 ∧
     TruncRaw (base + 2) r
 
 theorem int_trunc (m : Mode) (file : Array Word) (pre rest : List Word)
     (hf : file.toList = pre ++ rest) (ht : TruncInt pre.length rest) (hsz : file.size < U64) :
     View.int m file pre.length = fault (.err .eof) := by
-  rcases ht with ⟨len, rfl, hlen⟩ | ⟨len, w, r, rfl, hlen, hw, hr⟩
+  rcases ht with rfl | ⟨len, rfl, hlen⟩ | ⟨len, w, r, rfl, hlen, hw, hr⟩
+  · exact int_refuses_past_end m file _ (by rw [size_eq_of_toList hf]; simp)
   · have hsize : file.size = pre.length + 1 := by rw [size_eq_of_toList hf]; simp
-    exact int_refuses m file _ (by omega) (by omega)
+    exact int_refuses m file _ hsz (by omega)
   · have hsize : file.size = pre.length + (2 + r.length) := by
       rw [size_eq_of_toList hf]; simp only [List.length_append, List.length_cons]; omega
     have hat : fileAt file pre.length = ok len := by
@@ -336,7 +362,8 @@ theorem int_trunc (m : Mode) (file : Array Word) (pre rest : List Word)
         (by rw [hf]; simp) (by simpa using hr) hsz
       simpa using this
     unfold View.int
-    rw [addM_ok (by omega)]
+    have h0 : ¬ (pre.length ≥ file.size) := by omega
+    rw [if_neg h0, addM_ok (by omega)]
     simp only [bind_ok]
     have h1 : ¬ (pre.length + 1 ≥ file.size) := by omega
     rw [if_neg h1, hat]
@@ -381,15 +408,16 @@ theorem truncRaw_rawVec (base : Nat) (v : RawVec) (j : Nat) (hj : j < (rawVecC.s
     refine ⟨v.len, (vecU64C.ser v.data).take j, by simp [rawVecC], hlen, ?_⟩
     exact truncSlice_vecU64 _ _ _ (by rw [vecU64C_ser_length]; omega) (by rw [vecU64C_ser_length]; omega)
 
-theorem truncInt_intVec (base : Nat) (v : IntVec) (j : Nat) (hj1 : 1 ≤ j) (hj : j < (intVecC.ser v).length)
+theorem truncInt_intVec (base : Nat) (v : IntVec) (j : Nat) (hj : j < (intVecC.ser v).length)
     (hlen : v.len < U64) (hw : v.width < U64) (hrlen : v.data.len < U64)
     (hsz : base + (intVecC.ser v).length < U64) :
     TruncInt base ((intVecC.ser v).take j) := by
   rw [intVecC_ser_length] at hj hsz
-  match j, hj1 with
-  | 1, _ => left; exact ⟨v.len, by simp [intVecC], hlen⟩
-  | j + 2, _ =>
-    right
+  match j with
+  | 0 => left; rfl
+  | 1 => right; left; exact ⟨v.len, by simp [intVecC], hlen⟩
+  | j + 2 =>
+    right; right
     refine ⟨v.len, v.width, (rawVecC.ser v.data).take j, by simp [intVecC], hlen, hw, ?_⟩
     exact truncRaw_rawVec _ _ _ (by rw [rawVecC_ser_length]; omega) hrlen
       (by rw [rawVecC_ser_length]; omega)
@@ -415,11 +443,11 @@ theorem raw_rawVec_truncated (m : Mode) (pre : List Word) (v : RawVec) (j : Nat)
     View.raw m (pre ++ (rawVecC.ser v).take j).toArray pre.length = fault (.err .eof) :=
   raw_trunc m _ pre _ rfl (truncRaw_rawVec _ v j hj hlen (by simpa using hsz)) (length_pre_take_lt hsz)
 
-theorem int_intVec_truncated (m : Mode) (pre : List Word) (v : IntVec) (j : Nat) (hj1 : 1 ≤ j)
+theorem int_intVec_truncated (m : Mode) (pre : List Word) (v : IntVec) (j : Nat)
     (hj : j < (intVecC.ser v).length) (hlen : v.len < U64) (hw : v.width < U64)
     (hrlen : v.data.len < U64) (hsz : (pre ++ intVecC.ser v).length < U64) :
     View.int m (pre ++ (intVecC.ser v).take j).toArray pre.length = fault (.err .eof) :=
-  int_trunc m _ pre _ rfl (truncInt_intVec _ v j hj1 hj hlen hw hrlen (by simpa using hsz))
+  int_trunc m _ pre _ rfl (truncInt_intVec _ v j hj hlen hw hrlen (by simpa using hsz))
     (length_pre_take_lt hsz)
 
 /-! ### `View.bytes`, `View.str` -/
